@@ -15,7 +15,7 @@
     list at the popper's latest read of top. *)
 From Coq Require Import ZArith List Bool Lia Arith.
 From MT Require Import Lib.Interleave Barrier.BarrierModel Barrier.BarrierLib Barrier.BarrierGhost
-  Barrier.BarrierProofs.
+  Barrier.BarrierProofs Barrier.BarrierLive.
 Import ListNotations.
 
 (** the ghost is only an observer *)
@@ -106,6 +106,42 @@ Theorem C06_stack_repr :
 Proof. exact stack_repr. Qed.
 Print Assumptions C06_stack_repr.
 
+(** "when they are released every participant returns", possibility form.  [nocall]: the schedule contains
+    no new calls of wait; [returned g u k]: u has returned from its k-th wait.
+    (a) the only thread without an enabled step is a sleeper waiting for its wake-up (suspended, callback
+    finished); (b) the popper's CAS fails only because a push succeeded since its read of top;
+    (c) from EVERY reachable state some schedule without calls, at most 27 N + 3 steps long, leads to a state
+    in which every thread is idle or asleep; (d) if all N participants have entered their k-th wait, that
+    schedule ends with all N returned from it, and if nobody has entered wait k+1 yet the barrier is back in its
+    initial state (everybody idle, count 0, empty stack, k resets) *)
+Theorem C06_enabled :
+  forall N g t, greach N g -> t < N ->
+  (mn (st g) t = Susp /\ cbk (st g) t = CbNone) \/ exists e s', step (st g) (t, e) = Some s'.
+Proof. exact enabled_or_asleep. Qed.
+Print Assumptions C06_enabled.
+
+Theorem C06_pop_cas_fails_only_after_push :
+  forall N g t n i hd tl x, greach N g -> t < N -> mn (st g) t = PopCas n i hd tl x -> top (st g) <> Some x ->
+  exists p pre, stk (gh g) = (p :: pre) ++ snap (gh g) /\ top (st g) = Some p.
+Proof. exact pop_cas_fails_only_after_push. Qed.
+Print Assumptions C06_pop_cas_fails_only_after_push.
+
+Theorem C06_settles :
+  forall N g, greach N g ->
+  exists sched g', length sched <= 27 * N + 3 /\ nocall sched /\ grun sched g = Some g' /\ settled N (st g').
+Proof. exact settle. Qed.
+Print Assumptions C06_settles.
+
+Theorem C06_round_completes :
+  forall N g k, greach N g -> (forall u, u < N -> k <= clv (gh g) u) ->
+  exists sched g',
+    length sched <= 27 * N + 3 /\ nocall sched /\ grun sched g = Some g' /\
+    (forall u, u < N -> returned g' u k) /\
+    ((forall u, u < N -> clv (gh g) u = k) ->
+     (forall u, u < N -> mn (st g') u = Idle) /\ bstate (st g') = 0%Z /\ top (st g') = None /\ gR (gh g') = k).
+Proof. exact round_completes. Qed.
+Print Assumptions C06_round_completes.
+
 (** the inductive invariant itself (DESIGN.md Appendix B.4) *)
 Theorem C06_invariant : forall N g, greach N g -> Inv N (st g) (gh g).
 Proof. exact BarrierPres.inv_reachable. Qed.
@@ -161,3 +197,23 @@ Example C06_ex_excess_with_extra_thread :
   option_map (fun s => map main (thr s)) (mrun ex_sched_excess (init_state 3 2)) =
   Some [Susp; BReset 1; Excess].
 Proof. vm_compute. reflexivity. Qed.
+
+(** hypotheses of C06_round_completes are satisfiable in non-trivial states: after [ex_sched_racer] all three
+    have entered their first wait (one is already in its second); after [ex_sched_popfail] all three are in
+    their first wait, nobody has returned, the popper is in the middle of a failed CAS *)
+Example C06_ex_round_completes_hyp :
+  (exists g, grun ex_sched_racer (ginit_state 3) = Some g /\ (forall u, u < 3 -> 1 <= clv (gh g) u) /\
+             ~ settled 3 (st g)) /\
+  (exists g, grun ex_sched_popfail (ginit_state 3) = Some g /\ (forall u, u < 3 -> clv (gh g) u = 1) /\
+             ~ (forall u, u < 3 -> returned g u 1)).
+Proof.
+  split.
+  - destruct (grun ex_sched_racer (ginit_state 3)) as [g|] eqn:E; [|vm_compute in E; discriminate].
+    exists g. split; [reflexivity|]. vm_compute in E. inversion E; subst g. split.
+    + intros u Hu. destruct u as [|[|[|u]]]; try lia; vm_compute; lia.
+    + intros H. destruct (H 2 ltac:(lia)) as [H2|[H2 _]]; vm_compute in H2; discriminate.
+  - destruct (grun ex_sched_popfail (ginit_state 3)) as [g|] eqn:E; [|vm_compute in E; discriminate].
+    exists g. split; [reflexivity|]. vm_compute in E. inversion E; subst g. split.
+    + intros u Hu. destruct u as [|[|[|u]]]; try lia; reflexivity.
+    + intros H. destruct (H 0 ltac:(lia)) as [H0|[_ H0]]; vm_compute in H0; [lia|discriminate].
+Qed.
